@@ -1,7 +1,7 @@
 (* C10 — Saved state restores the session exactly. *)
 From Coq Require Import ZArith List Bool Permutation Sorted.
 From Common Require Import Res.
-From Core Require Import World Model Step Reach Proofs_C01 Proofs_C10 Proofs_C03b Proofs_C10b Proofs_C10c.
+From Core Require Import World Model Step Reach Proofs_C01 Proofs_C10 Proofs_C03b Proofs_C10b Proofs_C10c Proofs_C10d.
 Import ListNotations.
 Open Scope Z_scope.
 
@@ -101,3 +101,31 @@ Theorem C10_save_restore_paused :
   /\ a_uri w' = Some (trk c) /\ a_state w' = Paused /\ World.tl w' = World.tl w.
 Proof. exact save_restore_paused. Qed.
 Print Assumptions C10_save_restore_paused.
+
+(* T8/T9: the same at position 0 (a session saved right at the start of a track): no seek is
+   issued; a paused session is paused as soon as the restored stream starts. *)
+Theorem C10_save_restore_playing_at_zero :
+  forall shuf f cov c w,
+  cov_tracklist cov = true -> cov_play_last cov = true ->
+  settled_on w c -> pstate w = Playing -> In c (World.tl w) -> NoDup (map tlid (World.tl w)) ->
+  1 <= tlid c -> a_pos w = 0 -> accepts w c ->
+  (match volume w with Some v => 0 <= v <= 100 | None => True end) ->
+  let w' := run_world shuf (S f) w [Save; Load cov; Deliver; Deliver; Deliver; Deliver] in
+  option_map tlid (current w') = Some (tlid c) /\ pstate w' = Playing /\ pending w' = None /\ queue w' = []
+  /\ a_pos w' = 0
+  /\ a_uri w' = Some (trk c) /\ a_state w' = Playing /\ World.tl w' = World.tl w.
+Proof. exact save_restore_playing_at_zero. Qed.
+Print Assumptions C10_save_restore_playing_at_zero.
+
+Theorem C10_save_restore_paused_at_zero :
+  forall shuf f cov c w,
+  cov_tracklist cov = true -> cov_play_last cov = true ->
+  settled_on w c -> pstate w = Paused -> In c (World.tl w) -> NoDup (map tlid (World.tl w)) ->
+  1 <= tlid c -> a_pos w = 0 -> accepts w c ->
+  (match volume w with Some v => 0 <= v <= 100 | None => True end) ->
+  let w' := run_world shuf (S f) w [Save; Load cov; Deliver; Deliver; Deliver; Deliver; Deliver; Deliver] in
+  option_map tlid (current w') = Some (tlid c) /\ pstate w' = Paused /\ pending w' = None /\ queue w' = []
+  /\ a_pos w' = 0
+  /\ a_uri w' = Some (trk c) /\ a_state w' = Paused /\ World.tl w' = World.tl w.
+Proof. exact save_restore_paused_at_zero. Qed.
+Print Assumptions C10_save_restore_paused_at_zero.
